@@ -526,6 +526,42 @@ Section GrowAct2.
     destruct Hor as [Ho|[Ho Hu]]; [left; apply OW; auto|right; split; [apply OW; auto|apply UB; exact Hu]].
   Qed.
 
+  (* move assignment over a destination that no live binding reads, while writing observers exist: the source's observers (writing ones
+     included) now belong to the destination, those of the overwritten destination are gone with its dead tables *)
+  Lemma grow_moveassign_b fuel w dst src w' :
+    SCB w -> COH w -> NOEMIT w -> (forall b lf, has_leaf w b lf -> lf_tg lf <> Some dst) ->
+    step1 fn rtl fuel w (PMoveAssign dst src) = (w', None) -> SCB w' /\ COH w'.
+  Proof.
+    intros (Hinv & Hna & Hsi) (s & HRel & HInv) HNE Hnr H.
+    pose proof (PropLinkMove.moveassign_pinv fn rtl fuel w dst src w' None Hinv HNE H I) as Hinv'.
+    destruct (PropMove.moveassign_shape2 fn rtl fuel w dst src w' Hinv HNE Hnr H) as (s0 & d0 & dn & sn & Hs & Hd & Hne & Vd & Ud & Vs & Us & PW & Sw & HB & _ & _ & _ & (Sa & Sc) & DD).
+    destruct (PropMove.coh_renamed_core fn w w' s src dst s0 dn sn Hinv Hsi HRel HInv Hinv' Hne Hs) as [Hsi' HC']; auto.
+    { intros b Hb. apply HB. apply Hb. exact Hd. }
+    split; [|exact HC']. split; [exact Hinv'|split; [|exact Hsi']].
+    assert (OW : forall p k t, (k = KChanged \/ k = KAbout) -> p <> dst -> owns w p k t -> owns w' (PropMove.rn src dst p) k t).
+    { intros p k t Hk Hpd (vv & Ev & Es). unfold owns, pview, PropMove.rn in *. destruct (lookup (w_props w) p) as [pr0|] eqn:Hp0; [|discriminate Ev]. inversion Ev; subst vv.
+      destruct (Nat.eqb_spec p src) as [->|Hps].
+      - rewrite Hs in Hp0. inversion Hp0; subst pr0. rewrite PW, Nat.eqb_refl. eexists. split; [reflexivity|].
+        destruct Hk as [->| ->]; cbn in *; congruence.
+      - rewrite PW. destruct (Nat.eqb_spec p dst); [contradiction|]. destruct (Nat.eqb_spec p src); [contradiction|].
+        rewrite Hp0. eexists. split; [reflexivity|exact Es]. }
+    assert (UB : forall p, p <> dst -> PropSimAct2.unbound w p -> PropSimAct2.unbound w' (PropMove.rn src dst p)).
+    { intros p Hpd (vv & Ev & Uv). unfold PropSimAct2.unbound, pview, PropMove.rn in *. destruct (lookup (w_props w) p) as [pr0|] eqn:Hp0; [|discriminate Ev]. inversion Ev; subst vv.
+      destruct (Nat.eqb_spec p src) as [->|Hps].
+      - rewrite Hs in Hp0. inversion Hp0; subst pr0. rewrite PW, Nat.eqb_refl. eexists. split; [reflexivity|]. cbn in *. congruence.
+      - rewrite PW. destruct (Nat.eqb_spec p dst); [contradiction|]. destruct (Nat.eqb_spec p src); [contradiction|].
+        rewrite Hp0. eexists. split; [reflexivity|exact Uv]. }
+    intros t pos ser label a Hsl. pose proof (Sw _ _ _ _ Hsl) as Hs0. destruct (Hna t pos ser label a Hs0) as (tgt & p & Ea & Hor).
+    assert (Hpd : p <> dst).
+    { intros ->. destruct Hsl as (sl & fr & al & Et & En).
+      assert (Ht : pr_changed d0 = Some t \/ pr_about d0 = Some t).
+      { destruct Hor as [(vv & Ev & Es)|[(vv & Ev & Es) _]]; unfold pview in Ev; rewrite Hd in Ev; inversion Ev; subst vv; cbn in Es; auto. }
+      destruct (DD t Ht) as (sl1 & fr1 & E1). rewrite E1 in Et. inversion Et; subst sl1 fr1 al.
+      pose proof (pi_dead _ _ _ _ _ _ _ Hinv' _ _ _ _ _ E1 En) as E. discriminate E. }
+    exists tgt, (PropMove.rn src dst p). split; [exact Ea|].
+    destruct Hor as [Ho|[Ho Hu]]; [left; apply OW; auto|right; split; [apply OW; auto|apply UB; auto]].
+  Qed.
+
   (* after ~Property the tables of the public change signals of the dead property are dead *)
   Lemma del_dead fuel w p pr w' :
     lookup (w_props w) p = Some pr -> step1 fn rtl fuel w (PDel p) = (w', None) ->
@@ -583,6 +619,7 @@ Section GrowAct2.
     | PReset _ => True
     | PMoveCtor _ _ => True
     | PDel p => PropGrowMore.no_reader_b w p = true
+    | PMoveAssign dst _ => PropGrowMore.no_reader_b w dst = true
     | _ => act2_op w o
     end.
 
@@ -598,6 +635,7 @@ Section GrowAct2.
         apply (grow_rebind_b fuel w p pr old e w' HSC HC Hp Hu H).
     - (* PReset *) apply (grow_reset_b fuel w p w'); assumption.
     - (* PMoveCtor *) apply (grow_movector_b fuel w src dst w'); assumption.
+    - (* PMoveAssign *) apply (grow_moveassign_b fuel w dst src w' HSC HC HNE (PropGrowMore.no_reader_sound w dst Ho) H).
   Qed.
 
   Fixpoint grow_act2_run_ok (fuel : nat) (w : world) (ops : list op) : Prop :=
